@@ -178,10 +178,16 @@ def run(ctx):
                 elif match(pat(f"next(iter({P_OBS}))"), v) is not None or match(pat(f"list({P_OBS})[$i]"), v) is not None \
                         or match(pat(f"list({P_OBS}.keys())[$i]"), v) is not None or match(pat(f"next(iter({keys_p}))"), v) is not None:
                     ref_nm = nm
+        inline_ref = None
+        if ref_nm is None:
+            # used in place, without a local:  p_obs[keys[0]][common_key]
+            cands_ = sorted({txt(n_) for n_ in astx.walk_fn(gf.node) if isinstance(n_, ast.Subscript) and txt(n_.value) == keys_p and astx.const_value(n_.slice) is not None})
+            if len(cands_) == 1:
+                ref_nm = inline_ref = cands_[0]
         if ref_nm is None:
             o.undecided("reference topology is not chosen from the caller's names", gf)
             return
-        o.holds(gf, sc.def_stmt(ref_nm), f"reference topology `{ref_nm}` is one of the caller's names")
+        o.holds(gf, sc.def_stmt(ref_nm) if inline_ref is None else gf.node, f"reference topology `{ref_nm}` is one of the caller's names")
         # common key from the intersection of all observation key sets
         ck = None
         inter_names = [nm for nm, sites in sc.assigns.items() if len(sites) == 1
@@ -227,6 +233,14 @@ def run(ctx):
                     if tx == a_ or tx.startswith(a_ + "[") or tx.startswith(a_ + "."):
                         tx = full + tx[len(a_):]
                 return tx
+            # which topologies are rescaled: all of them, or all but the reference (whose factor is 1)
+            facts_ = rules.known_facts(par, aug, upto=sl)
+            for t_, pol_ in facts_:
+                r_ = rules.compare_with_pivot(t_, lambda x: txt(x) == t, negated=not pol_)
+                if r_ is not None and r_[0] == "==":
+                    o.violated(gf, par.stmt_of(t_), f"only the topology equal to `{txt(r_[1])}` is rescaled: every other observation keeps its own scale and the merged distribution is wrong")
+                elif r_ is not None and r_[0] == "!=":
+                    o.holds(gf, par.stmt_of(t_), f"every topology but the reference `{txt(r_[1])}` (factor 1) is rescaled")
             # the factor must not be computed, inside the loop, from an entry that the loop itself rescales
             reads_scaled = [x for x in ast.walk(aug.value) if isinstance(x, ast.Subscript) and de(x.value) == f"{P_OBS}[{t}]"]
             fdef0 = sc.def_stmt(txt(aug.value)) if isinstance(aug.value, ast.Name) else None
@@ -264,6 +278,14 @@ def run(ctx):
                 and txt(upd[0].args[0]) == f"{P_OBS}[{txt(par.loops_of(upd[0])[0].target)}]":
             o.holds(gf, upd[0], "all observations are merged")
             merged = txt(upd[0].func.value)
+        elif len(upd) == 1 and par.loops_of(upd[0]) and (txt(par.loops_of(upd[0])[0].iter) in (P_OBS, keys_p, f"{P_OBS}.keys()", f"{P_OBS}.items()", f"{P_OBS}.values()")) \
+                and rules.known_facts(par, upd[0], upto=par.loops_of(upd[0])[0]):
+            # the merge shares a loop with something that skips some topology (`if t == reference: continue`): that
+            # topology's observations never reach the merged distribution
+            f0_ = rules.known_facts(par, upd[0], upto=par.loops_of(upd[0])[0])[0]
+            o.violated(gf, upd[0], f"`{txt(upd[0])}` only runs when `{'not ' if not f0_[1] else ''}{txt(f0_[0])}`: the observations of the skipped topology are never merged - joint degrees that "
+                                   "occur only there are lost and the rest is renormalised without them")
+            merged = txt(upd[0].func.value)
         else:
             o.undecided("merge of all observations (dict.update in a loop over all topologies) not recognised", gf)
             merged = None
@@ -287,6 +309,22 @@ def run(ctx):
             rets = [n for n in astx.walk_fn(gf.node) if isinstance(n, ast.Return)]
             if rets and txt(rets[-1].value) == merged:
                 o.holds(gf, rets[-1], "returns the merged, renormalised distribution")
+
+    with ctx.obligation("C14.9", "list <-> dict conversions of the per-topology distributions are positional relabelings") as o:
+        conform(o, prog.func("JointExcessfromJDD.convert_list_qks_to_dict"), ['''
+def convert_list_qks_to_dict(qks_list, keys):
+    qks_dict = {}
+    for key, qk in zip(keys, qks_list):
+        qks_dict[key] = qk
+    return qks_dict
+'''], "list -> dict: the i-th distribution under the i-th name")
+        conform(o, prog.func("JointExcessfromJDD.convert_dict_qks_to_list"), ['''
+def convert_dict_qks_to_list(qks_dict, keys):
+    qks_list = []
+    for key in keys:
+        qks_list.append(qks_dict[key])
+    return qks_list
+'''], "dict -> list: the distributions in the order of the names")
 
     with ctx.obligation("C14.6", "row sums: q[left] += ejk[left + right] over the topology's excess keys x itself") as o:
         conform(o, prog.func("JointExcessFromEjk.get_excess_joint_distributions"), REF_ROWSUM, "row sums")
